@@ -969,5 +969,12 @@ func TestReplay(t *testing.T) {
 			}
 			return judgePersist(c)
 		},
+		"persist_go_backend": func(raw json.RawMessage) error {
+			var c realCase
+			if err := vt.Decode(raw, &c); err != nil {
+				return err
+			}
+			return judgeReal(c)
+		},
 	})
 }
